@@ -308,3 +308,179 @@ def w(x: uint256):
 """}, "layout": {"a": {"type": "uint256", "slot": 7, "n_slots": 1}, "b": {"type": "HashMap[address, uint256]", "slot": 9, "n_slots": 1},
                  "c": {"type": "uint128[3]", "slot": 20, "n_slots": 3}}},
 }
+
+
+# --------------------------------------------------------------------------- control-flow heavy programs (hash-seed sweep)
+# Anything in a backend that iterates a python set/dict of *strings* (variable names, labels) shows only on programs
+# with several simultaneously live values at control-flow joins, so the sweep uses programs with many loop-carried /
+# branch-merged locals, written both by hand and by a seeded generator.
+CF_FIXED = {
+    "cf_loop5": """
+@external
+def f(n: uint256, k: uint256) -> uint256:
+    a: uint256 = 1
+    b: uint256 = 2
+    c: uint256 = 3
+    d: uint256 = 5
+    e: uint256 = 7
+    for i: uint256 in range(n, bound=64):
+        if i % 3 == k:
+            a = unsafe_add(a, unsafe_mul(b, i))
+            b = b ^ c
+            c = unsafe_add(c, d)
+            d = unsafe_add(unsafe_mul(d, 3), e)
+            e = unsafe_add(e, a)
+        else:
+            e = unsafe_add(unsafe_mul(e, 2), 1)
+            d = unsafe_add(d, c)
+            c = c ^ a
+            b = unsafe_add(b, 1)
+            a = unsafe_mul(a, 5)
+    return a ^ (b << 1) ^ (c << 2) ^ (d << 3) ^ (e << 4)
+""",
+    "cf_branch_tuple": """
+total: public(uint256)
+
+@internal
+def _mix(x: uint256, y: uint256, flag: bool) -> (uint256, uint256, uint256):
+    p: uint256 = x
+    q: uint256 = y
+    r: uint256 = x ^ y
+    if flag:
+        p = unsafe_add(q, r)
+        q = unsafe_mul(r, 3)
+        r = unsafe_add(p, 1)
+    else:
+        r = unsafe_mul(p, q)
+        q = unsafe_add(p, 7)
+        p = unsafe_sub(r, q)
+    return p, q, r
+
+@external
+def g(x: uint256, y: uint256, flag: bool) -> uint256:
+    p: uint256 = 0
+    q: uint256 = 0
+    r: uint256 = 0
+    p, q, r = self._mix(x, y, flag)
+    self.total = unsafe_add(self.total, p)
+    return p ^ (q << 1) ^ (r << 2)
+""",
+    "cf_nested_dyn": """
+acc: DynArray[uint256, 16]
+hits: HashMap[address, uint256]
+
+@external
+def h(xs: DynArray[uint256, 8], t: uint256) -> (uint256, uint256, bool):
+    lo: uint256 = max_value(uint256)
+    hi: uint256 = 0
+    s: uint256 = 0
+    found: bool = False
+    cnt: uint256 = 0
+    for x: uint256 in xs:
+        if x < lo:
+            lo = x
+        if x > hi:
+            hi = x
+        for j: uint256 in range(4):
+            if (x >> j) & 1 == 1:
+                s = unsafe_add(s, j)
+                cnt = unsafe_add(cnt, 1)
+            elif x == t:
+                found = True
+                break
+            else:
+                s = s ^ x
+        if found and cnt > 3:
+            continue
+        if len(self.acc) < 16:
+            self.acc.append(unsafe_add(lo, hi))
+    self.hits[msg.sender] = cnt
+    return unsafe_add(lo, hi), s, found
+""",
+    "cf_strings": """
+names: HashMap[uint256, String[32]]
+
+@external
+def pick(a: String[32], b: String[32], c: Bytes[32], n: uint256) -> (String[32], Bytes[32], uint256):
+    s: String[32] = a
+    t: String[32] = b
+    u: Bytes[32] = c
+    k: uint256 = 0
+    for i: uint256 in range(n, bound=8):
+        if i % 2 == 0:
+            s = t
+            t = a
+            k = unsafe_add(k, len(s))
+        else:
+            t = s
+            u = slice(c, 0, len(c) // 2)
+            k = k ^ len(u)
+    self.names[k] = s
+    return t, u, k
+""",
+}
+
+_CF_OPS = ["unsafe_add({a}, {b})", "unsafe_mul({a}, {b})", "unsafe_sub({a}, {b})", "{a} ^ {b}", "{a} & {b}", "{a} | {b}",
+           "{a} >> ({b} % 256)", "unsafe_add({a}, {k})", "{a} ^ {k}"]
+
+
+def gen_cf_program(rnd):
+    """a seeded external function with 3..7 uint256 locals which are assigned in random subsets and orders inside nested
+    bounded loops and if/elif/else chains (no reverting operation, everything stays live until the final return)."""
+    n = rnd.randint(3, 7)
+    vs = [f"v{i}" for i in range(n)]
+    lines = []
+    state = {"loops": 0, "stmts": 0}
+
+    def expr():
+        return rnd.choice(_CF_OPS).format(a=rnd.choice(vs + ["x", "y"]), b=rnd.choice(vs + ["x", "y"]), k=rnd.randint(1, 99))
+
+    def cond(idx):
+        a = rnd.choice(vs + idx + ["x"])
+        return rnd.choice([f"{a} % {rnd.randint(2, 5)} == {rnd.randint(0, 1)}", f"{a} < {rnd.choice(vs + ['y'])}",
+                           f"{a} & {1 << rnd.randint(0, 7)} != 0"])
+
+    def assigns(ind, idx):
+        sub = rnd.sample(vs, rnd.randint(2, n))      # >= 2 variables assigned in the same block, random order
+        for v in sub:
+            lines.append(f"{ind}{v} = {expr()}")
+            state["stmts"] += 1
+        if idx and rnd.random() < 0.3:
+            lines.append(f"{ind}{rnd.choice(vs)} = unsafe_add({rnd.choice(vs)}, {rnd.choice(idx)})")
+
+    def block(ind, depth, idx, in_loop):
+        for _ in range(rnd.randint(1, 2)):
+            r = rnd.random()
+            if depth < 3 and r < 0.35 and state["loops"] < 3:
+                state["loops"] += 1
+                i = f"i{state['loops']}"
+                rng = rnd.choice([f"range({rnd.randint(2, 6)})", f"range(x, bound={rnd.randint(2, 8)})"])
+                lines.append(f"{ind}for {i}: uint256 in {rng}:")
+                block(ind + "    ", depth + 1, idx + [i], True)
+            elif depth < 3 and r < 0.8:
+                lines.append(f"{ind}if {cond(idx)}:")
+                block(ind + "    ", depth + 1, idx, in_loop)
+                if rnd.random() < 0.4:
+                    lines.append(f"{ind}elif {cond(idx)}:")
+                    assigns(ind + "    ", idx)
+                    if in_loop and rnd.random() < 0.3:
+                        lines.append(f"{ind}    {rnd.choice(['continue', 'break'])}")
+                if rnd.random() < 0.8:
+                    lines.append(f"{ind}else:")
+                    assigns(ind + "    ", idx)
+            else:
+                assigns(ind, idx)
+        if state["stmts"] == 0:
+            assigns(ind, idx)
+
+    block("    ", 0, [], False)
+    if state["loops"] == 0:
+        lines.append("    for i9: uint256 in range(x, bound=5):")
+        lines.append(f"        if {cond(['i9'])}:")
+        assigns("            ", ["i9"])
+        lines.append("        else:")
+        assigns("            ", ["i9"])
+    head = ["s: public(uint256)", "", "@external", "def f(x: uint256, y: uint256) -> uint256:"]
+    head += [f"    {v}: uint256 = {rnd.randint(1, 50)}" for v in vs]
+    tail = ["    self.s = " + " ^ ".join(vs[: max(2, n // 2)]), "    return " + " ^ ".join(f"({v} << {i})" for i, v in enumerate(vs))]
+    return "\n".join(head + lines + tail) + "\n"
